@@ -48,6 +48,9 @@ type interpreter struct {
 	depth              int
 	side               map[string]value // engine side tables (per path)
 	initNotes          []string
+	unsafeData         map[*value][]value
+	stack              []*ssa.Function
+	panicStack         []string
 }
 
 type deferred struct {
@@ -518,7 +521,21 @@ func callSSA(i *interpreter, caller *frame, callpos token.Pos, fn *ssa.Function,
 	if i.depth > 400 {
 		panic(pathAbort{EndInconclusive, "call depth budget exceeded in " + fn.String()})
 	}
-	defer func() { i.depth-- }()
+	i.stack = append(i.stack, fn)
+	defer func() {
+		if r := recover(); r != nil {
+			if i.panicStack == nil {
+				for k := len(i.stack) - 1; k >= 0 && len(i.panicStack) < 12; k-- {
+					i.panicStack = append(i.panicStack, i.stack[k].String())
+				}
+			}
+			i.stack = i.stack[:len(i.stack)-1]
+			i.depth--
+			panic(r)
+		}
+		i.stack = i.stack[:len(i.stack)-1]
+		i.depth--
+	}()
 	if fn.Pkg != nil && strings.HasPrefix(fn.Pkg.Pkg.Path(), "github.com/resgateio/resgate") {
 		i.x.Stats.Funcs[fn.String()]++
 	}
@@ -639,12 +656,13 @@ func doRecover(caller *frame) value {
 
 func newInterpreter(prog *ssa.Program, x *Explorer) *interpreter {
 	i := &interpreter{
-		prog:     prog,
-		globals:  make(map[*ssa.Global]*value),
-		initDone: make(map[*ssa.Package]bool),
-		sizes:    &types.StdSizes{WordSize: 8, MaxAlign: 8},
-		x:        x,
-		side:     map[string]value{},
+		prog:       prog,
+		globals:    make(map[*ssa.Global]*value),
+		initDone:   make(map[*ssa.Package]bool),
+		sizes:      &types.StdSizes{WordSize: 8, MaxAlign: 8},
+		x:          x,
+		side:       map[string]value{},
+		unsafeData: map[*value][]value{},
 	}
 	if runtimePkg := prog.ImportedPackage("runtime"); runtimePkg != nil {
 		if t := runtimePkg.Type("errorString"); t != nil {
